@@ -9,6 +9,7 @@ import GontainerModel.Model.Runtime
 import GontainerModel.Lemmas.History
 import GontainerModel.Lemmas.Rank
 import GontainerModel.Lemmas.NonShared
+import GontainerModel.Lemmas.ArgsCompiled
 import GontainerModel.Generated.Template
 namespace GM.C05
 open GM GM.Graph GM.Output
@@ -245,6 +246,29 @@ theorem contextual_once_for_acyclic (p : Runtime.Prog) (hac : cyclic (buildGraph
     (hc : (Runtime.bagOf st c).lookup id = some v) :
     (Runtime.bagOf (Runtime.runOps F p st ops) c).lookup id = some v :=
   contextual_once_per_context p _ _ (Runtime.sranked_of_acyclic p hac hw) (Runtime.ranked_of_acyclic p hac hd) F ops st c hnew id v hc
+
+/-- **for every configuration the build accepts**: `p` runs what `Compile.compile` returned for the input `i` (with the function
+table `compileMeta` registered) and the compiled dependency graph is acyclic (`ValidateCircularDeps`, C07). No recording
+hypothesis is left: the compiler's output records every dependency the runtime follows (`compiled_recorded`:
+`resolve_records_dependency` lifted over arguments, fields, calls and decorators, `compiled_params_recorded` for parameters).
+Then across ANY history of Get / GetInContext / GetTaggedBy / GetTaggedByInContext / GetParam / new contexts a shared service
+is instantiated once per container … (that `compile` succeeds on real inputs is not shown by an `example` here — `decide` does
+not reduce the validators — but by the correspondence: the model's `compile` returns the real compiler's output on every
+accepted sample of every run) -/
+theorem shared_once_for_compiled (p : Runtime.Prog) (bv : String) (i : Input.Input) (hc : Runtime.CompiledFrom p bv i)
+    (hac : cyclic (buildGraph p.out) = false) (F : Nat) (ops : List Runtime.Op) (st : Runtime.St)
+    (id : String) (v : Runtime.RV) (hsc : Runtime.effScope p st id = .shared) (hcache : st.shared.lookup id = some v) :
+    (Runtime.runOps F p st ops).shared.lookup id = some v ∧
+    (∃ suf, (Runtime.runOps F p st ops).evalLog = st.evalLog ++ suf ∧ ("ctor:" ++ id) ∉ suf) :=
+  shared_once_for_acyclic p hac (Runtime.compiled_recorded p bv i hc).1 (Runtime.compiled_recorded p bv i hc).2 F ops st id v hsc hcache
+
+/-- … and a contextual one once per context -/
+theorem contextual_once_for_compiled (p : Runtime.Prog) (bv : String) (i : Input.Input) (hc : Runtime.CompiledFrom p bv i)
+    (hac : cyclic (buildGraph p.out) = false) (F : Nat) (ops : List Runtime.Op) (st : Runtime.St)
+    (c : String) (hnew : Runtime.Op.newCtx c ∉ ops) (id : String) (v : Runtime.RV)
+    (hb : (Runtime.bagOf st c).lookup id = some v) :
+    (Runtime.bagOf (Runtime.runOps F p st ops) c).lookup id = some v :=
+  contextual_once_for_acyclic p hac (Runtime.compiled_recorded p bv i hc).1 (Runtime.compiled_recorded p bv i hc).2 F ops st c hnew id v hb
 
 -- non-vacuity of the history theorems: a two-service program (a depends on the shared b and carries a tag) is ranked
 def demoHist : Runtime.Prog :=
